@@ -487,7 +487,9 @@ def two_instances(rng, budget, deep, replay=None):
                 t = e.t(rng)
                 stored = {k_: (id(v_), v_.copy()) for k_, v_ in vars(a).items() if isinstance(v_, np.ndarray)}
                 try:
-                    a(Q, e.t(rng))                # the very first request is at another time
+                    # the very first request is at another time; the general-EOS wrapper at its latest catalogue time, when
+                    # the driver widens its window (seeded C06-10: the widened window was written back to the object)
+                    a(Q, e.t(rng) if name != 'GenEOS_Solver' else 0.25)
                 except Exception:
                     pass
                 r1 = a(P, t)
